@@ -365,7 +365,8 @@ impl DistinguishedName {
 					dn
 				}
 			} else {
-				panic!("x509-parser distinguished name set is empty");
+				// An empty RelativeDistinguishedName (SET SIZE (1..MAX)) is malformed input
+				return Err(Error::CouldNotParseCertificate);
 			};
 
 			let attr_type_oid = attr
